@@ -19,13 +19,13 @@ import (
 
 func C09() *engine.Scenario {
 	return &engine.Scenario{
-		ID:       "C09",
-		Level:    "exploration",
-		MapSched: true,
-		Rule: "Relay chain ('replicas never diverge'). Each run: the Author draws a document (every step kind incl. unknown and scalar steps, groups, all shorthands, unknown extra keys with nested values of every scalar kind, strings over tab/LF/CR + printable Unicode incl. YAML type look-alikes) rendered as YAML or JSON; hop 0 parses it with the real Parse; then 1-4 relay hops each marshal the previous hop's pipeline to a tape-chosen format (JSON or YAML) and re-parse it with Parse, all library map ranges in sched-tape order. Invariant after every hop: the hop's data view (reflective dump: dynamic step kinds, field values, order of ordered maps; numbers by value; time.Time == its RFC 3339 text; nil == empty container) equals hop 0's. Additionally every command step and plugin list goes through the stand-alone CommandStep.UnmarshalJSON / Plugins.UnmarshalJSON decoders, and each hop's marshalling is repeated under a second map-iteration schedule and must be byte-identical. YAML hops are skipped (counted) when the data holds a multi-line string that begins with whitespace. Fingerprint = (hop formats, shape features present). Non-trivial = >=2 shape features (cache false, simple matrix, scalar step, one-key plugins, look-alike string, ordered env, unknown step, timestamp) and >=1 hop.",
-		Real:     []string{"pipeline.Parse", "json.Marshal / yaml.Marshal of *Pipeline and every step type (inlineFriendlyMarshalJSON, Matrix/Cache/Plugin/Wait/Input marshallers, ordered.Map marshallers)", "CommandStep.UnmarshalJSON", "Plugins.UnmarshalJSON"},
-		Stub:     []string{"Author", "relay driver (Backend)", "map iteration scheduler (zzverifsim)", "reflective data view"},
-		Assume:   []string{"numbers compare by value (the library's own emitters turn 1.0 into 1)", "a time.Time equals its RFC 3339 text on a JSON hop (pinned by TestParserHandlesDates)", "nil and empty containers are the same data", "mapping keys equal to '<<' on a YAML hop are a known finding (D6), matched narrowly"},
+		ID:         "C09",
+		Level:      "exploration",
+		MapSched:   true,
+		Rule:       "Relay chain ('replicas never diverge'). Each run: the Author draws a document (every step kind incl. unknown and scalar steps, groups, all shorthands, unknown extra keys with nested values of every scalar kind, strings over tab/LF/CR + printable Unicode incl. YAML type look-alikes) rendered as YAML or JSON; hop 0 parses it with the real Parse; then 1-4 relay hops each marshal the previous hop's pipeline to a tape-chosen format (JSON or YAML) and re-parse it with Parse, all library map ranges in sched-tape order. Invariant after every hop: the hop's data view (reflective dump: dynamic step kinds, field values, order of ordered maps; numbers by value; time.Time == its RFC 3339 text; nil == empty container) equals hop 0's. Additionally every command step and plugin list goes through the stand-alone CommandStep.UnmarshalJSON / Plugins.UnmarshalJSON decoders, and each hop's marshalling is repeated under a second map-iteration schedule and must be byte-identical. YAML hops are skipped (counted) when the data holds a multi-line string that begins with whitespace. Fingerprint = (hop formats, shape features present). Non-trivial = >=2 shape features (cache false, simple matrix, scalar step, one-key plugins, look-alike string, ordered env, unknown step, timestamp) and >=1 hop.",
+		Real:       []string{"pipeline.Parse", "json.Marshal / yaml.Marshal of *Pipeline and every step type (inlineFriendlyMarshalJSON, Matrix/Cache/Plugin/Wait/Input marshallers, ordered.Map marshallers)", "CommandStep.UnmarshalJSON", "Plugins.UnmarshalJSON"},
+		Stub:       []string{"Author", "relay driver (Backend)", "map iteration scheduler (zzverifsim)", "reflective data view"},
+		Assume:     []string{"numbers compare by value (the library's own emitters turn 1.0 into 1)", "a time.Time equals its RFC 3339 text on a JSON hop (pinned by TestParserHandlesDates)", "nil and empty containers are the same data", "mapping keys equal to '<<' on a YAML hop are a known finding (D6), matched narrowly"},
 		Runs:       map[string]int{"quick": 25000, "thorough": 1500000},
 		TimeoutSec: 120,
 		Run:        runC09,
